@@ -32,7 +32,10 @@ TRUSTED_BASE = [
     "Coq 8.16.1 kernel + vm_compute",
     "harness/c16.py: recording pool, capturing logging.Handler, canonicalisation of numbers to exact rationals",
     "model/Decorators.v is hand-written (incl. the transcription of CPython's `%` parser for a mapping operand); "
-    "tied to _proxy.py / logger.py / standardiser.py / buffer.py and to CPython 3.12 by the correspondence run only",
+    "tied to _proxy.py / logger.py / standardiser.py / buffer.py and to CPython 3.12 by the correspondence run; the five "
+    "accessors of PoolDecorator and Logger.demand getter / setter (record fields, log-before-write) additionally by "
+    "translation (py2coq/units.py:gen_decorators, trusted, fail-closed; gen/Gen_decorators.v regenerated on every run, "
+    "kit/DecoIR.v, props/C16_tie.v); Logger.__init__ / name / the template check by correspondence only",
     "ideal arithmetic (cases use Fractions; float infinities only as Standardiser defaults)",
     "python's logging delivers a record for every Logger.log call with level >= 1 on an enabled logger",
     "harness Probe/Tap pools around every Standardiser/Buffer instance forward all four attributes unchanged",
@@ -883,3 +886,19 @@ def shrink(case, still_fails):
             except Exception:
                 pass
     return cur
+
+
+# ------------------------------------------------------------------ translator tie
+TIE_TARGETS = ["props/C16_tie.vo"]
+
+
+def regen(chk):
+    """regenerate gen/Gen_decorators.v from the current interfaces/_proxy.py and decorator/logger.py"""
+    import os
+    from . import common
+    from py2coq import units
+    res = units.regen(common.REPO, os.path.join(common.COQDIR, "gen"), ["Gen_decorators.v"])
+    chk.coverage["translator"] = res
+    bad = [v for v in res.values() if v != "ok"]
+    if bad:
+        raise RuntimeError(bad[0])
